@@ -164,11 +164,16 @@ def for_property(prop, res):
     """Thorough-tier hook: run the variants owned by `prop`; record the outcome in the evidence."""
     corpus = load_corpus()
     mine = [v for v in corpus if v.get("property") == prop and v.get("kind", "mutant") == "mutant"]
-    benign = [dict(v, properties=[prop]) for v in corpus if v.get("kind") == "benign"]
+    benign_all = [dict(v, properties=[prop]) for v in corpus if v.get("kind") == "benign"]
+    # every benign variant against every property is `python3 -m sa.selftest` (about seven minutes); the thorough tier of one
+    # property takes every fourth benign variant, offset by the property's number, so that the 19 thorough runs together
+    # cover each benign variant about five times
+    k = int("".join(ch for ch in prop if ch.isdigit()) or 0) % 4
+    benign = [v for i, v in enumerate(benign_all) if i % 4 == k]
     out = run_variants(mine + benign, verbose=False)
     failed = [r for r in out if not r["ok"]]
     res.extra["selftest"] = {
-        "mutants": len(mine), "benign": len(benign), "failed": [dict(id=r["id"], why=r["why"][:200]) for r in failed],
+        "mutants": len(mine), "benign": len(benign), "benign_in_corpus": len(benign_all), "failed": [dict(id=r["id"], why=r["why"][:200]) for r in failed],
         "detected": [r["id"] for r in out if r["ok"] and r["kind"] == "mutant"],
     }
     for r in failed:
